@@ -167,6 +167,10 @@ def op_cases(prog, mode="value", flavors=("ref", "ref+quantum", "noref", "money"
         cases.append(("R02.2", U("__rtruediv__"), f"{k}/Unit", unit_and_num("ref", k),
                       judge_product(lambda o: K / VAL(o, 0), lambda o: _dims_sum(o.state, (T_of(o, 0), neg)),
                                     mode=mode), {}))
+    for fl in ("ref+quantum", "noref", "money"):
+        cases.append(("R02.2", U("__rtruediv__"), f"dec/Unit [{fl}]", unit_and_num(fl, "dec"),
+                      judge_product(lambda o: K / VAL(o, 0), lambda o: _dims_sum(o.state, (T_of(o, 0), neg)),
+                                    mode=mode), {}))
     # ---------------- Unit (x) Quantity
     for name, sgn in (("__mul__", 1), ("__truediv__", -1)):
         e2 = (sgn, 0)
@@ -197,6 +201,10 @@ def op_cases(prog, mode="value", flavors=("ref", "ref+quantum", "noref", "money"
                                     lambda o, n=n: _dims_sum(o.state, (T_of(o, 0), (n, 0))), mode=mode), {}))
     cases.append(("R02.2", U("__pow__"), "Unit**Decimal", lambda c: upow(c, c.num("k", "dec")), judge_notimpl, {}))
 
+    def qpow(c, nval, fl="ref"):
+        c.new_type("T", **FLAVORS[fl])
+        return [c.qty("self", c.unit("us", "T")), nval], {}
+
     # ---------------- Quantity (x) number
     for k in num_kinds:
         for fl in ("ref", "ref+quantum", "money"):
@@ -207,6 +215,15 @@ def op_cases(prog, mode="value", flavors=("ref", "ref+quantum", "noref", "money"
                           judge_scaled(lambda o: VAL(o, 0) / K, mode), {}))
         cases.append(("R02.2", Q("__rtruediv__"), f"{k}/Quantity", qty_and_num("ref", k),
                       judge_product(lambda o: K / VAL(o, 0), lambda o: _dims_sum(o.state, (T_of(o, 0), neg)),
+                                    mode=mode), {}))
+    for fl in ("ref+quantum", "noref", "money"):
+        cases.append(("R02.2", Q("__rtruediv__"), f"dec/Quantity [{fl}]", qty_and_num(fl, "dec"),
+                      judge_product(lambda o: K / VAL(o, 0), lambda o: _dims_sum(o.state, (T_of(o, 0), neg)),
+                                    mode=mode), {}))
+        cases.append(("R02.2", Q("__pow__"), f"Quantity**2 [{fl}]" if fl != "ref+quantum" else "Quantity**-1 [ref+quantum]",
+                      (lambda c, fl=fl: qpow(c, Num(RF.const(2 if fl != "ref+quantum" else -1), "int"), fl)),
+                      judge_product(lambda o, fl=fl: VAL(o, 0).pow_int(2 if fl != "ref+quantum" else -1),
+                                    lambda o, fl=fl: _dims_sum(o.state, (T_of(o, 0), (2 if fl != "ref+quantum" else -1, 0))),
                                     mode=mode), {}))
     # ---------------- Quantity (x) Quantity / Unit
     for name, sgn in (("__mul__", 1), ("__truediv__", -1)):
